@@ -8,7 +8,7 @@ _EDIT_ASSUME = [
 
 SPECS = {
     'C01': {
-        'engine': 'editsim', 'mod': 'sim.engines', 'quick': 24000, 'thorough': 400000, 'level': 'exploration',
+        'engine': 'editsim', 'mod': 'sim.engines', 'quick': 24000, 'thorough': 360000, 'level': 'exploration',
         'rule': 'one evaluation = one seeded run: generated program (corpus picks + layout perturbations) and a history '
                 'of 1-12 structured edits, ast.parse(src)==live tree (with positions) asserted after every edit that '
                 'returned; non-trivial = at least one edit returned normally; distinct = distinct event-log digest '
@@ -17,7 +17,7 @@ SPECS = {
                                        "options never include pars=False, norm=False, raw!=False"],
     },
     'C12': {
-        'engine': 'editsim', 'mod': 'sim.engines', 'quick': 24000, 'thorough': 400000, 'level': 'fault_enumeration',
+        'engine': 'editsim', 'mod': 'sim.engines', 'quick': 16000, 'thorough': 240000, 'level': 'fault_enumeration',
         'rule': 'one evaluation = one seeded run: program + history of 2-10 requests mixing valid edits with invalid '
                 'requests of 12 fault kinds (F1 unparsable code, F2 wrong category, F3 ordering rule, F4 index/field, '
                 'F5 bad option, F6 consumed tree, F7 non-root tree, F8 circular put, F9 emptying a non-empty-only field, '
@@ -28,7 +28,7 @@ SPECS = {
         'assumptions': _EDIT_ASSUME + ['MemoryError/KeyboardInterrupt style asynchronous failures are not injected (pfst does not promise rollback for them)'],
     },
     'C02': {
-        'engine': 'editsim', 'mod': 'sim.engines', 'quick': 6000, 'thorough': 100000, 'level': 'exploration',
+        'engine': 'editsim', 'mod': 'sim.engines', 'quick': 6000, 'thorough': 90000, 'level': 'exploration',
         'rule': 'one evaluation = one seeded run: program + history of 2-10 ops mixing structured edits with read-only '
                 'query bursts (cache warming on seeded node subsets) and long-lived FSTView handles; after edits (every '
                 'step, every third step, or only at the end - a swarm knob, so cold and warm caches are both explored) ~70 '
@@ -38,7 +38,7 @@ SPECS = {
         'assumptions': _EDIT_ASSUME + ['reference = pfst itself on a freshly parsed tree (the property is relational)'],
     },
     'C03': {
-        'engine': 'editsim', 'mod': 'sim.engines', 'quick': 8000, 'thorough': 150000, 'level': 'exploration',
+        'engine': 'editsim', 'mod': 'sim.engines', 'quick': 12000, 'thorough': 180000, 'level': 'exploration',
         'rule': 'one evaluation = one seeded run: program + history of 1-6 VETTED container requests (slice put/delete, '
                 'one-element put/delete, insert/append/prepend, optional-field put/delete) on ~45 (node type, field) '
                 'container kinds with bounds in [-len-2, len+2] U {end}; the expected tree is computed on the pure AST '
@@ -49,7 +49,7 @@ SPECS = {
         'assumptions': _EDIT_ASSUME + ['only vetted families are asserted against the list model (see DESIGN 2.4); emptying a Set, starred/keyword interleavings and virtual fields with ordering rules are outside the vetted class'],
     },
     'C04': {
-        'engine': 'editsim', 'mod': 'sim.engines', 'quick': 12000, 'thorough': 200000, 'level': 'exploration',
+        'engine': 'editsim', 'mod': 'sim.engines', 'quick': 12000, 'thorough': 180000, 'level': 'exploration',
         'rule': 'one evaluation = one seeded run on a UNIQUE-TOKEN program (every NAME/NUMBER/STRING/COMMENT token text is '
                 'unique, also in new code) with dense comments/blank lines and a history of 1-8 structured edits with '
                 'trivia/pep8space/elif_/docstr/pars options; after each successful edit: no token outside the allowed set '
@@ -59,7 +59,7 @@ SPECS = {
         'assumptions': _EDIT_ASSUME + ['the allowed window is an upper bound re-implemented from the trivia documentation: sensitivity is lost where it is too wide, never soundness'],
     },
     'C07': {
-        'engine': 'editsim', 'mod': 'sim.engines', 'quick': 10000, 'thorough': 200000, 'level': 'exploration',
+        'engine': 'editsim', 'mod': 'sim.engines', 'quick': 10000, 'thorough': 150000, 'level': 'exploration',
         'rule': 'one evaluation = one seeded run: program (60 % unique-token) + history of 2-8 ops mixing edits with read ops '
                 '(copy/get/get_slice/view.copy with trivia/pars/norm/docstr options) and cut-vs-copy+delete differentials on '
                 'forked trees; after each read: source tree (src, dump+positions, query answers) unchanged, returned tree is '
@@ -69,7 +69,7 @@ SPECS = {
         'assumptions': _EDIT_ASSUME + ['structural equality ignores expression contexts and whitespace after newlines inside string constants (documented docstring re-indentation)'],
     },
     'C08': {
-        'engine': 'editsim', 'mod': 'sim.engines', 'quick': 12000, 'thorough': 200000, 'level': 'exploration',
+        'engine': 'editsim', 'mod': 'sim.engines', 'quick': 16000, 'thorough': 240000, 'level': 'exploration',
         'rule': 'one evaluation = one seeded run: program + history of 1-6 composite ops (cut node/slice ... put back at the '
                 'same place with cache-warming queries in between, repeated up to 4x; replace(node, own copy | own pure AST | '
                 'own source | own_src()); own_src() re-parsed; put_docstr->get_docstr and put_line_comment->get_line_comment '
@@ -79,7 +79,7 @@ SPECS = {
         'assumptions': _EDIT_ASSUME + ['refusals documented as not implemented are not violations', 'comment round trip asserted only for single-line texts without leading/trailing whitespace'],
     },
     'C10': {
-        'engine': 'editsim', 'mod': 'sim.engines', 'quick': 16000, 'thorough': 300000, 'level': 'exploration',
+        'engine': 'editsim', 'mod': 'sim.engines', 'quick': 20000, 'thorough': 300000, 'level': 'exploration',
         'rule': 'one evaluation = one seeded run: program + history of 1-4 raw requests: put_src(text, rectangle, reparse) with '
                 'rectangles on/off token and node boundaries and replacement text from a token soup (valid and invalid = fault '
                 'R1), raw node puts (raw=True / raw=auto = fault P2) and reparse(); oracle: raise => (src, dump+positions, '
@@ -89,7 +89,7 @@ SPECS = {
         'assumptions': _EDIT_ASSUME + ['violations whose request satisfies a listed input predicate (rectangle touches a statement boundary / result changes the statement skeleton / whole source) are counted under the known findings'],
     },
     'C11': {
-        'engine': 'editsim', 'mod': 'sim.engines', 'quick': 16000, 'thorough': 300000, 'level': 'exploration',
+        'engine': 'editsim', 'mod': 'sim.engines', 'quick': 20000, 'thorough': 300000, 'level': 'exploration',
         'rule': 'one evaluation = one seeded run: program + history of 1-8 ops: trivia-only put_src(action=offset) edits at '
                 'gaps between tokens found by tokenize (spaces, newline+indent and comment lines inside brackets, backslash '
                 'continuations outside), called on the innermost node that strictly contains the spot (computed on the pure '
@@ -99,7 +99,7 @@ SPECS = {
         'assumptions': _EDIT_ASSUME + ['sampled gaps, not enumerated'],
     },
     'C13': {
-        'engine': 'reconsim', 'mod': 'sim.engines', 'quick': 6000, 'thorough': 100000, 'level': 'exploration',
+        'engine': 'reconsim', 'mod': 'sim.engines', 'quick': 12000, 'thorough': 180000, 'level': 'exploration',
         'rule': 'one evaluation = one seeded run: program, 1-3 rounds of mark() + 0-6 pure-AST mutations applied directly to '
                 'root.a (replace by brand-new nodes, insert, delete, swap, duplicate by copy / by identity, move, graft from '
                 'another FST tree unmodified / modified, change primitive values; each kept only if ast.unparse/ast.parse shows '
@@ -111,7 +111,7 @@ SPECS = {
         'real_vs_stub': 'all pfst code ran real; harness-side wrapper: Reconcile.put_node (class attribute) for fault P1; stubs: none',
     },
     'C15': {
-        'engine': 'walksim', 'mod': 'sim.engines', 'quick': 16000, 'thorough': 300000, 'level': 'exploration',
+        'engine': 'walksim', 'mod': 'sim.engines', 'quick': 24000, 'thorough': 360000, 'level': 'exploration',
         'timeout_is_violation': True,
         'rule': 'one evaluation = one seeded schedule: a tree, walk()/search() parameters (all, on, back, recurse, scope, self_, '
                 'start node) and at every yield a scheduler action drawn from {nothing, replace/remove the yielded node, '
@@ -125,7 +125,7 @@ SPECS = {
         'real_vs_stub': 'all pfst code ran real; the scheduler acts only at generator yields; stubs: none',
     },
     'C17': {
-        'engine': 'matchsim', 'mod': 'sim.engines', 'quick': 3000, 'thorough': 50000, 'level': 'exploration',
+        'engine': 'matchsim', 'mod': 'sim.engines', 'quick': 4000, 'thorough': 60000, 'level': 'exploration',
         'rule': 'one evaluation = one seeded schedule over 2-4 live search() generators (25 pattern families: types, wildcard, '
                 'MOR/MAND/MNOT, tags, back-references, greedy and non-greedy quantifiers, MRE) on 1-2 trees plus 2-8 plain '
                 'match() calls issued between yields; the scheduler picks who advances; every party result (matched path and '
@@ -136,7 +136,7 @@ SPECS = {
                         'references are computed by pfst itself in a forked child (relational property)'],
     },
     'C18': {
-        'engine': 'subsim', 'mod': 'sim.engines', 'quick': 8000, 'thorough': 150000, 'level': 'exploration',
+        'engine': 'subsim', 'mod': 'sim.engines', 'quick': 16000, 'thorough': 240000, 'level': 'exploration',
         'rule': 'one evaluation = one seeded subn() request: program (50 % unique-token; no match statements / f-strings / type '
                 'parameters) x pattern family (10: Name/Call/BinOp/Attribute in Load context, BinOp with two captures, Return, '
                 'Expr(Call), Pass, If, Assign) x template (wrap, identity, double slot, swap, block wrappers) x nested x count '
@@ -148,7 +148,7 @@ SPECS = {
         'assumptions': _EDIT_ASSUME + ['only pattern/template families the reference can mirror exactly are generated; requests whose reference result is not valid Python are not judged'],
     },
     'C20': {
-        'engine': 'threadsim', 'mod': 'sim.engines', 'quick': 1500, 'thorough': 25000, 'level': 'exploration',
+        'engine': 'threadsim', 'mod': 'sim.engines', 'quick': 4000, 'thorough': 60000, 'level': 'exploration',
         'rule': 'one evaluation = one seeded schedule: 2-4 REAL threads, each with its own tree and a script of 3-10 ops '
                 '(set_options, nested options() blocks incl. bodies that raise = fault O1, invalid option names/values = '
                 'fault F5, edits and copies with and without per-call options, get_options() snapshots); only one thread is '
